@@ -489,6 +489,8 @@ def to_iter(ctx, v):
     if isinstance(v, Agg) and v.ty in ("Range",):
         a, b = v.fields
         return SeqIt([usize(i) for i in range(conc(a), conc(b))])
+    if isinstance(v, Agg) and v.ty not in ("tuple", "Option", "Result"):
+        return v          # a user type that implements Iterator: IntoIterator is the identity
     raise Unsupported("into_iter on %r" % (v,))
 
 
@@ -1090,6 +1092,33 @@ def register_all(M):
             return sbool(True)
         return sbool(elem_eq(c, Slice(x[len(x) - len(y):]), Slice(y)))
     M.add(r"core::slice::<impl \[.*\]>::ends_with", slice_ends_with)
+
+    def slice_split(c, m, a):
+        items = as_items(a[0])
+        out, cur = [], []
+        for x in items:
+            if c.decide(c.call_callable(a[1], [new_ref(x)])):
+                out.append(Slice(cur))
+                cur = []
+            else:
+                cur.append(x)
+        out.append(Slice(cur))
+        return SeqIt(out)
+    M.add(r"core::slice::<impl \[.*\]>::split::<.*>", slice_split)
+
+    def slice_strip_suffix(c, m, a):
+        x, y = as_items(a[0]), as_items(a[1])
+        if len(y) <= len(x) and c.decide(elem_eq(c, Slice(x[len(x) - len(y):]), Slice(y)) if y else True):
+            return some(Slice(x[:len(x) - len(y)]))
+        return none()
+
+    def slice_strip_prefix(c, m, a):
+        x, y = as_items(a[0]), as_items(a[1])
+        if len(y) <= len(x) and c.decide(elem_eq(c, Slice(x[:len(y)]), Slice(y)) if y else True):
+            return some(Slice(x[len(y):]))
+        return none()
+    M.add(r"core::slice::<impl \[.*\]>::strip_suffix::<.*>", slice_strip_suffix)
+    M.add(r"core::slice::<impl \[.*\]>::strip_prefix::<.*>", slice_strip_prefix)
 
     def slice_concat(c, m, a):
         out = []
